@@ -248,6 +248,66 @@ fn depth2_family() -> Vec<Expr> {
     v
 }
 
+/// trees built only from the constructs whose rendering is delicate: bitwise / contains / index / unary / `*`
+/// nodes over references named like literal prefixes, strings needing escapes, float / decimal / negative literals
+fn gen_tight(d: &mut Dec, depth: u32) -> Expr {
+    if depth == 0 || d.exhausted() {
+        return match d.below(10) {
+            0 => Expr::reff(*d.pick(&["f", "d", "i", "a", "e", "x1"])),
+            1 => Expr::symbol(*d.pick(&["f", "d", "s"])),
+            2 => Expr::Value(Value::Float(*d.pick(&[5.0, -0.0, 1.5, -2.0, 1e21, 1e-7, f64::INFINITY]))),
+            3 => Expr::Value(Value::Decimal(gen::gen_decimal(d))),
+            4 => Expr::Value(Value::Int(*d.pick(&[-5i128, 5, 0, i128::MIN]))),
+            5 => Expr::Value(Value::String((*d.pick(&["a\"b", "a\\b", "\\", "\"", "x\ny", "\\\"", "é\\n", ""])).to_string())),
+            6 => Expr::Value(Value::Bool(d.bool())),
+            7 => Expr::Value(Value::None),
+            _ => Expr::reff("a"),
+        };
+    }
+    match d.below(12) {
+        0 | 1 | 2 => {
+            let k = *d.pick(&["bitand", "bitor", "bitxor"]);
+            let a = gen_tight(d, depth - 1);
+            let b = gen_tight(d, depth - 1);
+            mk2(k, a, b)
+        }
+        3 | 4 => {
+            let a = gen_tight(d, depth - 1);
+            let b = gen_tight(d, depth - 1);
+            Expr::contains(a, b)
+        }
+        5 | 6 => {
+            let a = gen_tight(d, depth - 1);
+            if d.bool() {
+                Expr::index(a, reval::expr::Index::Vec(d.below(12)))
+            } else {
+                Expr::index(a, reval::expr::Index::Map((*d.pick(&["x", "f", "d", "e5", "b"])).to_string()))
+            }
+        }
+        7 => Expr::neg(gen_tight(d, depth - 1)),
+        8 => Expr::not(gen_tight(d, depth - 1)),
+        9 => {
+            let k = *d.pick(&["mult", "add", "sub", "eq", "and"]);
+            let a = gen_tight(d, depth - 1);
+            let b = gen_tight(d, depth - 1);
+            mk2(k, a, b)
+        }
+        10 => Expr::func(*d.pick(&["f", "d", "g"]), gen_tight(d, depth - 1)),
+        _ => {
+            let c = gen_tight(d, depth - 1);
+            let t = gen_tight(d, depth - 1);
+            let f = gen_tight(d, depth - 1);
+            Expr::iif(c, t, f)
+        }
+    }
+}
+
+fn random_tight(bytes: &[u8]) -> Expr {
+    let mut d = Dec::new(bytes);
+    let depth = 1 + d.below(5) as u32;
+    gen_tight(&mut d, depth)
+}
+
 fn random_tree(bytes: &[u8]) -> (Expr, Value) {
     let mut d = Dec::new(bytes);
     let depth = 1 + d.below(6) as u32;
@@ -291,6 +351,49 @@ pub fn run(ctx: &Ctx) {
             "tree",
         );
     }
+
+    let nt = ctx.tier.pick(120_000u64, 2_000_000u64);
+    ctx.random_min(
+        "random-tight-operator-trees",
+        nt,
+        || gen::recipe(200),
+        |bytes, acc| {
+            let e = random_tight(bytes);
+            if let Some(acc) = acc {
+                let f = feature(&e);
+                let class = if has_nonfinite(&e) { "tight:nonfinite" } else { f };
+                acc.case(&format!("tight:{class}"), true, || show_expr(&e));
+            }
+            check(&e)
+        },
+        |bytes| {
+            let e = random_tight(bytes);
+            json!({"tree": expr_to_json(&e), "text": show_expr(&e)})
+        },
+        "tree",
+        Some(&|bytes: &Vec<u8>, issue, is_known| {
+            let mut best = random_tight(bytes);
+            let mut best_issue = issue;
+            let mut budget = 2000;
+            'outer: loop {
+                for v in simpler_variants(&best) {
+                    budget -= 1;
+                    if budget <= 0 {
+                        break 'outer;
+                    }
+                    if let Err(i) = check(&v) {
+                        if !is_known(&i) {
+                            best = v;
+                            best_issue = i;
+                            continue 'outer;
+                        }
+                    }
+                }
+                break;
+            }
+            (json!({"tree": expr_to_json(&best), "text": show_expr(&best)}), best_issue)
+        }),
+    );
 
     let n = ctx.tier.pick(60_000u64, 1_500_000u64);
     ctx.random_min(
